@@ -242,7 +242,7 @@ def c_map_from_hashmap(ex, st, callee, a):
 @contract(r'^<serde_json::Map<std::string::String, serde_json::Value> as IntoIterator>::into_iter$', r'^<HashMap<std::string::String, serde_json::Value> as IntoIterator>::into_iter$',
           r'^<Vec<serde_json::Value> as IntoIterator>::into_iter$', r'^HashMap::<std::string::String, Box<dyn erased_serde::Serialize>>::iter$',
           r'^<HashMap<std::string::String, Box<dyn erased_serde::Serialize>> as IntoIterator>::into_iter$')
-def c_coll_into_iter(ex, st, callee, a): return [(None, ('lazyiter', deref(st, a[0]), None, 'ref' if callee.endswith('::iter') else 'val'))]
+def c_coll_into_iter(ex, st, callee, a): return [(None, ('lazyiter', deref(st, a[0]), None, 'ref' if callee.endswith('::iter') else 'val', ()))]
 
 
 @contract(r' as Iterator>::map::<')
@@ -250,13 +250,19 @@ def c_iter_map(ex, st, callee, a):
     it = a[0]
     if not (isinstance(it, tuple) and it[0] == 'lazyiter'): raise Unsupported('map over ' + str(it)[:60])
     if it[2] is not None: raise Unsupported('two maps over one iterator')
-    return [(None, ('lazyiter', it[1], (a[1], callee), it[3]))]
+    if len(it) > 4 and it[4]: raise Unsupported('map after filter')
+    return [(None, ('lazyiter', it[1], (a[1], callee), it[3], ()))]
 
 
 def apply_elem_fn(ex, st, fn, callee, args):
     """apply a closure value or a fn item (e.g. wrap_value) to a generic element"""
     f, cal = fn
     if isinstance(f, tuple) and f[0] == 'closure': return call_closure(ex, st, f, cal, args)
+    if isinstance(f, tuple) and f[0] == 'fnitem':
+        g = next((x for x in ex.fns if x.method == f[1] and not x.impl), None)
+        if g is None: raise Unsupported('function item ' + f[1])
+        if ex.ih.get(g.method): return [(st, ex.ih[g.method](*args))]
+        ex.stats['inlined'].add(g.name); return ex.run_sub(g, list(args), st)
     if isinstance(f, tuple) and f[0] in ('zst', 'adt'):     # function item passed by name
         m = re.search(r'fn\([^)]*\) -> [^{}]* \{(\w+)\}', cal)
         if m:
@@ -267,6 +273,13 @@ def apply_elem_fn(ex, st, fn, callee, args):
             return ex.run_sub(g, list(args), st)
         return call_closure(ex, st, f, cal, args)
     raise Unsupported('element function ' + str(f)[:60])
+
+
+@contract(r' as Iterator>::filter::<')
+def c_iter_filter(ex, st, callee, a):
+    it = a[0]
+    if not (isinstance(it, tuple) and it[0] == 'lazyiter'): raise Unsupported('filter over ' + str(it)[:60])
+    return [(None, ('lazyiter', it[1], it[2], it[3], tuple(it[4] if len(it) > 4 else ()) + ((a[1], callee),)))]
 
 
 @contract(r' as Iterator>::collect::<')
@@ -292,6 +305,16 @@ def c_collect_lazy(ex, st, callee, a):
             k2, v2 = deref(s2, r[1][0]), r[1][1]
             v2 = to_jv(s2, v2)
         if not (is_expr(k2) and simplify(k2 == kg).eq(BoolVal(True))): raise Unsupported('map-collect changes keys: ' + str(k2)[:60])
+        keep = BoolVal(True)
+        for flt in (it[4] if len(it) > 4 else ()):
+            ec = s2.new_cell(tup(k2, v2))
+            fo = apply_elem_fn(ex, s2, flt, callee, [('ref', ec, ())])
+            if len(fo) != 1 or not is_expr(fo[0][1]): raise Unsupported('filter predicate forks')
+            s2 = fo[0][0]; keep = And(keep, fo[0][1])
+        if not is_true(simplify(keep)):
+            if src[0] != 'hmap': raise Unsupported('filter over a JSON object')
+            P2 = Const('filtered_present%d' % next(fresh), ArraySort(S, BoolSort())); s2.mapdefs.append((P2, kg, And(Select(src[1], kg), keep)))
+            src = ('hmap', P2, src[2], None)
         same = is_expr(v2) and simplify(v2 == elem).eq(BoolVal(True))
         if src[0] == 'hmap':
             if same: out = ('hmap', src[1], src[2], src[3] if len(src) > 3 else None)
@@ -827,3 +850,20 @@ def text_lemmas(assertions):
     for t in apps.get('str_trim', []):
         lem.append(Length(t) <= Length(t.arg(0))); lem.append(str_trim(t) == t)
     return lem
+
+
+@contract(r'^serde_json::Value::(as_object|as_object_mut)$')
+def c_as_object(ex, st, callee, a):
+    v = to_jv(st, a[0]); c = st.new_cell(('jmapid', JV.o(v)))
+    return [(JV.is_Obj(v), some(('ref', c, ()))), (Not(JV.is_Obj(v)), NONE)]
+
+
+@contract(r'^serde_json::Value::take$')
+def c_value_take(ex, st, callee, a):
+    v = to_jv(st, a[0]); upd(st, a[0], JV.Null); return [(None, v)]
+
+
+@contract(r'^serde_json::Value::pointer_mut$')
+def c_value_pointer_mut(ex, st, callee, a):
+    outs = c_value_pointer(ex, st, callee, a)
+    return outs
